@@ -221,6 +221,8 @@ def compare_with_model(c, m):
     """-> None or a description of the first difference (step, what)"""
     if any(o.startswith("not-modelled") for o in m.outs):
         return "not-modelled"
+    if any(o.startswith("skipped-long-script") for o in m.outs):
+        return "skipped-long-script"
     a, b = per_step(c), per_step(m)
     for i in range(max(len(a), len(b))):
         if i >= len(a) or i >= len(b):
@@ -268,13 +270,26 @@ def dynamic_check(ctx, invalid, total, rule, modelled=True):
     samples = []
     corr = None
     failing = []
+    shard_failures = []
     for sh_ in shards:
+        model_ok = modelled
         if isinstance(sh_[0], str):
-            ctx.violation("%s: %s" % (sh_[0], sh_[1][1][-500:]), "command: %s\n" % sh_[2], found_input=False)
-            continue
+            # a crashed / timed-out model driver must not hide what the oracle saw on that shard
+            fb = None
+            if sh_[0] == "driver-failed" and " dynamic " in sh_[2]:
+                cf = sh_[2].split()[2]
+                sf = cf[:-len(".cases")] + ".dynspec.model"
+                if os.path.exists(cf) and os.path.exists(sf):
+                    a, b = parse_cases(cf), parse_cases(sf)
+                    if a and len(a) == len(b):
+                        fb = (a, [b, []], cf)
+            shard_failures.append(("%s: %s" % (sh_[0], sh_[1][1][-500:]), "command: %s\n" % sh_[2]))
+            if fb is None:
+                continue
+            sh_, model_ok = fb, False
         impl, models, path = sh_
         ss = {c.id: c for c in models[0]}
-        mm = {c.id: c for c in models[1]} if modelled else {}
+        mm = {c.id: c for c in models[1]} if model_ok else {}
         for c in impl:
             kind = c.kind.split("/")[-1]
             stats["histories"] += 1
@@ -331,7 +346,7 @@ def dynamic_check(ctx, invalid, total, rule, modelled=True):
                 failing.append((c, v))
                 continue
             # ---- correspondence with the Coq model
-            if modelled:
+            if model_ok:
                 m = mm.get(c.id)
                 if m is None:
                     corr = corr or (c, "model produced no output")
@@ -340,6 +355,8 @@ def dynamic_check(ctx, invalid, total, rule, modelled=True):
                 if why == "not-modelled":
                     if kind not in stats["not_modelled"]:
                         stats["not_modelled"].append(kind)
+                elif why == "skipped-long-script":
+                    stats["model_replay_skipped_long_script"] = stats.get("model_replay_skipped_long_script", 0) + 1
                 elif why is not None:
                     corr = corr or (c, why)
                 else:
@@ -365,6 +382,9 @@ def dynamic_check(ctx, invalid, total, rule, modelled=True):
                       text, found_input=True, key=c.kind + vc)
     if seen_classes:
         ctx.cov["failing_histories_by_class"] = {"%s: %s" % k: n for k, n in seen_classes.items()}
+    if shard_failures and not ctx.violations:
+        for what, text in shard_failures[:3]:
+            ctx.violation(what, text, found_input=False)
     if corr and not ctx.violations:
         c, why = corr
         ctx.violation("correspondence Model.Dynamic vs the Rust dynamic solvers no longer checks at %s (%s); the brute-force oracle found no failing history among %d judged queries"
